@@ -31,6 +31,8 @@ NOT_DECIDED = {
     "C19": "digest equality for all inputs",
     "C20": "nothing beyond the listed clauses: the check is two-sided on every numeric rule, but acceptance of 'every well-formed transaction' also depends on the serializer (C07)",
 }
+STATE = (" + refusal-as-entailment over the inputs (sym.must_refuse), stale-memo criteria (hit test vs state the kept value was computed from, weak keys, invalidation coverage over the class's state-changing methods), "
+         "state lints of the call tree (module-level objects frozen after import, shared accumulators, reused buffers, hoisted initialisations, class-level stores, native struct formats)")
 COMMON = ("trace-partitioned abstract interpretation over a term domain (sa/sym.py: symbolic store, canonical forms: renaming, temporaries, De Morgan, early returns, named constants, "
           "integer linear forms, loop <-> comprehension, helper inlining) ")
 TECH = {
@@ -52,7 +54,7 @@ TECH = {
     "C16": "exhaustive layout / letter table by abstract interpretation; " + COMMON + "+ canonical exits of every codec lambda / function, network class arguments, reference transcriptions of array packing and object codecs",
     "C17": "exception-escape analysis of verify_message; " + COMMON + "+ header-byte and r / s interval sets, message-presence path condition, reference transcriptions of the compact-signature codec, recovery and armour parsing",
     "C18": "exception-escape analysis of all parse entry points; " + COMMON + "+ payload-length sets, cache-key table, network-independence of cached decoders, prefix-comparison entailment, binding completeness",
-    "C19": "RIPEMD-160 tables re-derived from the specification's permutations; " + COMMON + "+ canonical equality of compression / padding / MurmurHash3 / BIP37 addressing with reviewed reference transcriptions (lane transformers, tail switch decided on len & 3)",
+    "C19": "RIPEMD-160 tables re-derived from the specification's permutations; width hygiene by a three-valued abstract interpretation of the 32-bit arithmetic (sa/wh.py: clean / dirty / unknown, loops to a fixpoint, private helpers by call-site join); " + COMMON + "+ canonical equality of compression / padding / MurmurHash3 / BIP37 addressing with reviewed reference transcriptions (lane transformers, tail switch decided on len & 3)",
     "C20": COMMON + "+ interval sets with per-coin symbolic endpoints (values, running total, coinbase script length, size), duplicate-outpoint key fields, null-outpoint predicate as formula equivalence",
 }
 
@@ -72,6 +74,8 @@ for i in range(1, 21):
     mod = importlib.import_module("rules." + pid)
     obs = mod.OBLIGATIONS
     n = len(obs)
+    from rules import shared as _shared
+    lent = list(_shared.DEPENDS.get(pid, ()))
     checks.append({
         "property_id": pid,
         "quick_cmd": "./check %s --tier quick" % pid,
@@ -81,12 +85,14 @@ for i in range(1, 21):
         "engine": "sa",
         "level_claimed": {
             "category": "other",
-            "text": ("static analysis of /repo's working tree: %d structural obligations (%s), each a necessary condition of %s; the check decides those clauses "
-                     "on every run and does not decide the behavioural universal statement" % (n, ", ".join(o.id for o in obs), pid)),
+            "text": ("static analysis of /repo's working tree: %d structural obligations (%s), each a necessary condition of %s%s, plus the call-tree obligation %s.T "
+                     "(every function of the anchor modules against its reviewed transcription; state lints); the check decides those clauses "
+                     "on every run and does not decide the behavioural universal statement"
+                     % (n, ", ".join(o.id for o in obs), pid, ("; %d obligations of the mechanisms it rests on, evaluated inside this check (%s)" % (len(lent), ", ".join(lent))) if lent else "", pid)),
             "design_ref": "DESIGN.md section 4, %s" % pid,
         },
         "level_note": "not decided: %s. Trusted: CPython ast, the reference tables in /verif/spec, semantics of struct/hashlib/hmac/binascii, the abstract interpreter /verif/sa/interp.py; Any-typed receivers resolved by method name." % NOT_DECIDED[pid],
-        "technique": TECH[pid],
+        "technique": TECH[pid] + STATE,
     })
 
 manifest = {
